@@ -1126,6 +1126,8 @@ func (mgr *Manager) DelTag(name string) error {
 				}
 				mgr.updatedTagsToSignal[tn] = struct{}{}
 			}
+			// detaching the converters may have re-opened tags
+			mgr.startTaggingJobIfNeeded()
 			return mgr.saveState()
 		}()
 		c <- err
@@ -1374,6 +1376,8 @@ func (mgr *Manager) UpdateTag(name string, operation UpdateTagOperation) error {
 						}
 					}
 				}
+				// detaching a converter may have re-opened tags
+				mgr.startTaggingJobIfNeeded()
 				mgr.startConverterJobIfNeeded()
 			}
 			if markStreams {
@@ -1975,6 +1979,8 @@ func (mgr *Manager) removeConverter(path string) error {
 	if err := converter.Reset(); err != nil {
 		return err
 	}
+	// detaching the converter may have re-opened tags
+	mgr.startTaggingJobIfNeeded()
 
 	delete(mgr.converters, name)
 	delete(mgr.streamsToConvert, name)
@@ -2063,6 +2069,22 @@ func (mgr *Manager) detachConverterFromTag(tag *tag, tagName string, converter *
 		// no other tags use this converter, delete all results
 		if err := converter.Reset(); err != nil {
 			return err
+		}
+		// the output is gone: a tag with a data filter may have matched it and
+		// would keep its matches for ever. Evaluate these tags again (the callers
+		// run startTaggingJobIfNeeded when they are done).
+		reopened := false
+		for _, t := range mgr.tags {
+			if t.features.MainFeatures&query.FeatureFilterData == 0 && t.features.SubQueryFeatures&query.FeatureFilterData == 0 {
+				continue
+			}
+			// never change a shared bitmask in place
+			t.Uncertain = mgr.allStreams
+			reopened = true
+		}
+		if reopened {
+			mgr.updatedStreamsDuringTaggingJob.Or(mgr.allStreams)
+			mgr.inheritTagUncertainty()
 		}
 	}
 	return nil
